@@ -82,6 +82,12 @@ func getPKI() *pki {
 func serverTLS(mode int) *tls.Config {
 	p := getPKI()
 	c := &tls.Config{Certificates: []tls.Certificate{p.server}}
+	if mode >= 10 {
+		// the certificate comes from a callback, as with rotating certificates
+		mode -= 10
+		srv := p.server
+		c = &tls.Config{GetCertificate: func(*tls.ClientHelloInfo) (*tls.Certificate, error) { return &srv, nil }}
+	}
 	if mode == 2 {
 		c.ClientAuth = tls.RequireAndVerifyClientCert
 		c.ClientCAs = p.pool
